@@ -20,7 +20,7 @@ import (
 	"verif/h/senderkit"
 )
 
-func units(string) []mc.Unit {
+func units(tier string) []mc.Unit {
 	var us []mc.Unit
 	for _, retry := range []bool{false, true} {
 		for _, flow := range []string{"PP", "FEP"} {
@@ -35,6 +35,16 @@ func units(string) []mc.Unit {
 	for _, flow := range []string{"PP", "FEP"} {
 		cfg := senderkit.Cfg{Flow: flow, Retry: false, Hist: 0, Faults: true, NoPrevLER: true}
 		us = append(us, mc.Unit{Name: cfg.String(), Params: cfg})
+	}
+	// MaxRetriesStoreCertificate = 0: the node retries the write of a submitted certificate until it succeeds
+	for _, retry := range []bool{false, true} {
+		for h := range senderkit.HistoryNames {
+			if tier == "quick" && h > 0 {
+				continue
+			}
+			cfg := senderkit.Cfg{Flow: "PP", Retry: retry, Hist: h, Faults: true, StoreRetriesForever: true}
+			us = append(us, mc.Unit{Name: cfg.String(), Params: cfg})
+		}
 	}
 	return us
 }
